@@ -133,7 +133,10 @@ class G:
             t = self.target()
             if t == l:
                 return f"{l}++;"
-            return f"{t} = {l}{self.r.choice(['++', '--'])} + {self.expr(1)};"
+            e = self.expr(1)
+            if l in e:  # an unsequenced read of the modified variable is undefined in C
+                e = self.lit()
+            return f"{t} = {l}{self.r.choice(['++', '--'])} + {e};"
         if c < 0.93 and "mem" not in self.avoid:
             w = self.r.choice(["8", "16", "32", "64"])
             self.stores += 1
@@ -253,4 +256,113 @@ def cast_call_matrix():
             fn = f"retc{k}"
             sub, cs = sub_item(fn, t2, [f"{t1} p"], "{ return p; }")
             items.append(dict(name=f"ret|{t1}|{t2}", text=f"{{ {t1} a = ({t1}) {src_for(t1)}; {t2} b = {fn}(a); RyyV = (int64_t) b; }}", subs=[sub], c_subs=cs))
+    return items
+
+
+# --------------------------------------------------------------------------- C05: statements
+ASSIGN_OPS = ["=", "+=", "-=", "*=", "/=", "%=", "<<=", ">>=", "&=", "|=", "^="]
+
+
+def stmt_programs(rng: random.Random, n: int):
+    """statement trees: sequences, nested blocks, if/else chains, for loops (zero-trip, nested,
+    data-dependent 0..8 trips), every assignment operator on 32/64-bit targets, interleaved
+    register / local / memory writes, declarations, empty statements."""
+    items = []
+    wide = ["int32_t", "uint32_t", "int64_t", "uint64_t"]
+    # (1) one program per assignment operator x target kind x target type
+    k = 0
+    for op in ASSIGN_OPS:
+        for t in wide:
+            for tgt in ("local", "reg"):
+                k += 1
+                rhs = rng.choice(["RtV", "uiV", "siV", "(RtV + 3)", "PwV"])
+                if op in ("<<=", ">>="):
+                    rhs = f"({rhs} & {31 if TW[t] == 32 else 63})"
+                if op in ("/=", "%="):
+                    rhs = f"(({rhs} & 0xff) + 1)"
+                if tgt == "local":
+                    text = f"{{ {t} q = ({t}) {src_for(t)}; q {op} {rhs}; RddV = (int64_t) q; }}"
+                    ex = [("q", t)]
+                else:
+                    reg = "RyyV" if TW[t] == 64 else "RxV"
+                    if op in ("/=", "%="):
+                        rhs = f"(({rng.choice(['RtV', 'uiV', 'RvvV'])} & 0xff) + 1)"
+                    text = f"{{ {reg} {op} {rhs}; RddV = (int64_t) {reg}; }}"
+                    ex = []
+                items.append(dict(name=f"asg;{op};{t};{tgt}", text=text, exports=ex, vkey=f"asg:{op}"))
+    # (2) loops with every trip count 0..8, nested, data dependent
+    for trips in range(0, 9):
+        items.append(dict(name=f"loop;const;{trips}", text=f"{{ int32_t acc = RsV; for (i = 0; i < {trips}; i++) {{ acc = acc * 3 + i; mem_store_u8((RtV + i), acc); }} RddV = acc; ReV = i; }}",
+                          exports=[("acc", "int32_t")], vkey="loop:const"))
+    items.append(dict(name="loop;data", text="{ uint32_t acc = 0; for (i = 0; i < (uiV & 15); i++) { acc += i * RsV; if (acc & 1) { ReV = acc; } else { acc ^= RtV; } } RddV = acc; }",
+                      exports=[("acc", "uint32_t")], vkey="loop:data"))
+    items.append(dict(name="loop;nested", text="{ uint64_t acc = RuuV; j = 0; for (i = 0; i < (RsV & 3); i++) { for (j = 0; j < (RtV & 3); j++) { acc = acc + i * 4 + j; } acc <<= 1; } RddV = acc; ReV = i + j; }",
+                      exports=[("acc", "uint64_t")], vkey="loop:nested"))
+    items.append(dict(name="loop;down", text="{ int32_t acc = 0; for (i = (RsV & 7); i > 0; i--) { acc += i; } RddV = acc; }", exports=[("acc", "int32_t")], vkey="loop:down"))
+    items.append(dict(name="loop;declinit", text="{ int32_t acc = 1; int k2; for (k2 = 0; k2 < (RtV & 7); k2 = k2 + 2) { acc *= 3; } RddV = acc; ReV = k2; }", exports=[("acc", "int32_t")], vkey="loop:step2"))
+    # (3) if / else chains
+    items.append(dict(name="if;chain", text="{ int32_t r = 0; if (RsV > RtV) { r = 1; } else if (RsV == RtV) { r = 2; } else if (RsV < -5) { r = 3; } else { r = 4; } ReV = r; if (r & 1) RddV = RuuV; }",
+                      exports=[("r", "int32_t")], vkey="if:chain"))
+    items.append(dict(name="if;nested", text="{ int32_t r = RsV; if (r & 1) { if (r & 2) { r += 10; } else { r -= 10; } r *= 2; } else { if (RtV) r = 0; } ReV = r; }", exports=[("r", "int32_t")], vkey="if:nested"))
+    items.append(dict(name="if;nonzero", text="{ ReV = 0; if (RsV) { ReV = 1; } if (RuuV) { RddV = 2; } else { RddV = 3; } if (PwV) { RxV = 7; } }", vkey="if:nonzero"))
+    items.append(dict(name="order;regmem", text="{ mem_store_u32(RtV, RsV); RxV = mem_load_s32(RtV) + 1; mem_store_u16((RtV + 2), RxV); ReV = mem_load_u32(RtV); RxV = RxV + ReV; }", vkey="order:regmem"))
+    items.append(dict(name="order;raw", text="{ ReV = RsV; ReV = ReV + 1; RddV = ReV; RxV = RxV + ReV; RxV = RxV * 2; ; { } { ; } }", vkey="order:raw"))
+    items.append(dict(name="order;chain", text="{ int32_t a; int32_t b; a = b = RsV + 1; ReV = a + b; }", exports=[("a", "int32_t"), ("b", "int32_t")], vkey="order:chain"))
+    # (4) random statement trees
+    g = G(rng, avoid=("calls", "postfix", "stmtexpr", "const_cond", "suffix"))
+    for i in range(n):
+        text, ex = g.program(depth=rng.choice([2, 3, 4]), nstmts=(2, 6), types=["int32_t", "uint32_t", "int64_t", "uint64_t", "int32_t", "uint8_t", "int16_t"])
+        items.append(dict(name=f"tree{i}", text=text, exports=ex, vkey="tree"))
+    return items
+
+
+# --------------------------------------------------------------------------- C06: hybrids
+def bump_sub(name="bump"):
+    """by-reference register operand: counts how often the call is executed"""
+    return sub_item(name, "int32_t", ["HexInsnPktBundle *bundle", "const HexOp *RxV", "int32_t v"], "{ RxV = RxV + 1; return v + 1; }")
+
+
+def hybrid_programs(rng: random.Random, n: int):
+    items = []
+    bs, bc = bump_sub()
+    T = lambda name, text, ex=(), subs=(), cs=None, vk=None: items.append(dict(name=name, text=text, exports=list(ex), subs=list(subs), c_subs=cs or {}, vkey=vk or name.split(";")[0]))  # noqa
+    a32 = [("a", "int32_t")]
+    # postfix ++/--: value is the old one, effect once, in order
+    T("post;stmt", "{ int32_t a = RsV; a++; ReV = a; a--; a--; RddV = a; }", a32)
+    T("post;value", "{ int32_t a = RsV; ReV = a++; RddV = a; }", a32)
+    T("post;cond", "{ int32_t a = RsV; if (a++ > 0) { ReV = a; } else { ReV = -a; } RddV = a; }", a32)
+    T("post;loopstep", "{ int32_t a = 0; for (i = 0; i < (RsV & 7); i++) { a += 2; } ReV = a; RddV = i; }", a32)
+    T("post;inloop", "{ int32_t a = RsV; for (i = 0; i < (RtV & 7); i++) { ReV = a++; } RddV = a; }", a32)
+    T("post;index", "{ int32_t a = RsV & 3; mem_store_u8((RtV + a++), 1); mem_store_u8((RtV + a++), 2); ReV = a; }", a32)
+    T("post;u8", "{ uint8_t a = (uint8_t) RsV; ReV = a++; RddV = a; }", [("a", "uint8_t")])
+    T("post;i64", "{ int64_t a = RuuV; RddV = a--; ReV = (a < 0); }", [("a", "int64_t")])
+    T("post;arm", "{ int32_t a = RsV; ReV = (RtV > 0) ? a++ : a--; RddV = a; }", a32)
+    # calls: return value, unused value, nested, in conditions / arguments / arms
+    T("call;value", "{ ReV = clz32(RsV) + 1; }")
+    T("call;unused", "{ ReV = RsV; clz32(RsV); RddV = ReV; }")
+    T("call;two", "{ ReV = clo32(RsV) + clo32(RtV); }")
+    T("call;arg", "{ ReV = clz32(fbrev(RsV)); RddV = clz64(revbit64(RuuV)); }")
+    T("call;cond", "{ if (clz32(RsV) > 16) { ReV = 1; } else { ReV = clo32(RtV); } }")
+    T("call;arm", "{ ReV = (RsV > 0) ? clz32(RsV) : clo32(RsV); }")
+    T("call;loop", "{ int32_t a = 0; for (i = 0; i < (RtV & 3); i++) { a += clz32(RsV + i); } ReV = a; }", a32)
+    T("call;init", "{ uint32_t a = clz32(RsV); uint64_t b = clz64(RuuV); ReV = a + b; }", [("a", "uint32_t"), ("b", "uint64_t")])
+    T("bump;once", "{ int32_t a = bump(bundle, RxV, RsV); ReV = a; }", a32, [bs], bc, "bump")
+    T("bump;unused", "{ bump(bundle, RxV, RsV); ReV = RxV; bump(bundle, RxV, 1); }", (), [bs], bc, "bump")
+    T("bump;twice", "{ ReV = bump(bundle, RxV, RsV) + bump(bundle, RxV, RtV); }", (), [bs], bc, "bump")
+    T("bump;arm", "{ ReV = (RsV > 0) ? bump(bundle, RxV, 1) : 7; }", (), [bs], bc, "bump")
+    T("bump;cond", "{ if (RsV & 1) { ReV = bump(bundle, RxV, RtV); } else { ReV = 3; } }", (), [bs], bc, "bump")
+    T("bump;loop", "{ int32_t a = 0; for (i = 0; i < (RsV & 7); i++) { a += bump(bundle, RxV, i); } ReV = a; }", a32, [bs], bc, "bump")
+    T("bump;order", "{ ReV = RxV; RxV = RxV * 2; bump(bundle, RxV, 0); RddV = RxV; }", (), [bs], bc, "bump")
+    # statement-expressions
+    T("se;value", "{ int32_t a = RsV; ReV = ({ a = a + 1; a * 2; }); RddV = a; }", a32)
+    T("se;arm1", "{ int32_t a = RsV; ReV = (RtV > 0) ? ({ a = a + 1; a; }) : 5; RddV = a; }", a32)
+    T("se;arm2", "{ int32_t a = RsV; ReV = (RtV > 0) ? 5 : ({ a = a - 1; a; }); RddV = a; }", a32)
+    T("se;botharms", "{ int32_t a = RsV; int32_t b = RtV; ReV = (RuuV > 0) ? ({ a = a + 1; a; }) : ({ b = b + 1; b; }); RddV = a + b; }", [("a", "int32_t"), ("b", "int32_t")])
+    T("se;usr", "{ ReV = (RsV > 100) ? ({ set_usr_field(bundle, HEX_REG_FIELD_USR_OVF, 1); 100; }) : RsV; }")
+    T("se;init", "{ int32_t a = ({ ReV = RsV; RsV + 1; }); RddV = a; }", a32)
+    # random mixtures: 0..4 hybrids
+    g = G(rng, avoid=("stmtexpr", "const_cond", "mem"))
+    for i in range(n):
+        text, ex = g.program(depth=rng.choice([2, 3]), nstmts=(2, 5), types=["int32_t", "uint32_t", "int64_t", "int16_t", "uint8_t"])
+        items.append(dict(name=f"mix{i}", text=text, exports=ex, vkey="mix"))
     return items
